@@ -47,6 +47,7 @@ type OpSpec struct {
 	Path2  int    `json:"path2,omitempty"` // scan/unmarshal: text scanned into the caller's own fresh parse of Path
 	Doc    int    `json:"doc"`
 	Vars   int    `json:"vars"` // -1: none
+	Vars2  int    `json:"vars2,omitempty"` // second WithVars option: 1-based index into Vars, 0: none
 	Silent bool   `json:"silent,omitempty"`
 	TZ     bool   `json:"tz,omitempty"`   // exec.WithTZ
 	Zone   string `json:"zone,omitempty"` // "" (no zone in ctx), "UTC", "+05:30", "America/New_York", ...
@@ -149,7 +150,7 @@ func (s *Scenario) Validate() error {
 				if o.Doc < 0 || o.Doc >= len(s.Docs) {
 					return fmt.Errorf("scenario: %s: bad doc index", where)
 				}
-				if o.Vars < -1 || o.Vars >= len(s.Vars) {
+				if o.Vars < -1 || o.Vars >= len(s.Vars) || o.Vars2 < 0 || o.Vars2 > len(s.Vars) {
 					return fmt.Errorf("scenario: %s: bad vars index", where)
 				}
 			}
